@@ -281,7 +281,7 @@ theorem inv_step [DecidableEq V] (up_idem : ∀ k, up (up k) = up k) {s : Store 
   | fromkeys ks v => exact inv_cdFromKeys up_idem ks v
   | moveToEnd k last =>
     simp only [step]; split
-    · next s' hm => exact inv_moveToEnd h k last hm
+    · next s' hm => exact inv_moveToEnd h (up k) last hm
     · exact h
   | clear => exact inv_nil
   | _ => exact h
@@ -613,20 +613,7 @@ theorem step_refines (up_idem : ∀ k, up (up k) = up k) {s : Store V} (h : Inv 
     simp [step, stepSpec, foldOp, cdRor, cdUpdate_eq, cdInit_eq up_idem, foldPair_map_inv h]
   | fromkeys ks v =>
     simp [step, stepSpec, foldOp, cdFromKeys, odFromKeys, List.foldl_map, cdSetitem]
-  | moveToEnd k last =>
-    by_cases e : up k = k
-    · simp [step, stepSpec, foldOp, e]
-    · have hk : k ∉ odKeys s := fun hm => e (h.2 k hm)
-      have h1 : odGet s k = none := (odGet_none s k).mpr hk
-      simp only [excluded, e, ne_eq, not_false_eq_true, decide_true, Bool.true_and] at hx
-      have h2 : odGet s (up k) = none := by
-        unfold odHas at hx; cases hg : odGet s (up k) <;> simp [hg] at hx ⊢
-      simp [step, stepSpec, foldOp, odMoveToEnd, h1, h2]
-  | moveToEndBytes k last =>
-    simp only [excluded] at hx
-    have h2 : odGet s (up k) = none := by
-      unfold odHas at hx; cases hg : odGet s (up k) <;> simp [hg] at hx ⊢
-    simp [step, stepSpec, foldOp, odMoveToEnd, h2]
+  | moveToEnd k last => rfl
   | keys => rfl
   | values => rfl
   | items => rfl
